@@ -130,9 +130,12 @@ func (co *collector) report() {
 	sort.Strings(sigs)
 	for _, sig := range sigs {
 		hs := co.hits[sig]
-		// deterministic choice: fewest calls, then family, then index
+		// deterministic choice: view = height before gapped views, fewest calls, then family, then index
 		sort.Slice(hs, func(i, j int) bool {
 			a, b := hs[i], hs[j]
+			if ga, gb := a.c.Fam == "random/gapped-views", b.c.Fam == "random/gapped-views"; ga != gb {
+				return gb // a history with view = height is the better witness
+			}
 			if len(a.c.Ops) != len(b.c.Ops) {
 				return len(a.c.Ops) < len(b.c.Ops)
 			}
@@ -182,6 +185,12 @@ func (co *collector) report() {
 }
 
 func main() {
+	for i, a := range os.Args {
+		if a == "-conc-child" && i+3 < len(os.Args) {
+			concChild(os.Args[i+1:])
+			return
+		}
+	}
 	r := ev.Start("C15", "exploration",
 		"a real Smr (NewSmr + DefaultSaftyRules + DefaultPaceMaker) over the QCPendingTree built by the real InitQCTree (fresh and restart forms) receives histories of calls: "+
 			"confirmed blocks (Smr.UpdateQcStatus), REAL signed proposal messages and vote messages from 4 validators through the synchronous handler wrappers, UpdateJustifyQcStatus, "+
@@ -206,7 +215,7 @@ func main() {
 	co.runAll("vote gaps", func(emit func(*Case)) { voteCases(3, emit) })
 	fmt.Fprintf(os.Stderr, "c15: exhaustive part done at %.1fs\n", time.Since(t0).Seconds())
 
-	nRandom := r.N(30000, 1200000)
+	nRandom := r.N(24000, 700000)
 	fams := []string{"random/mixed", "random/mixed", "random/deep-commit", "random/mixed", "random/gapped-views", "random/deep-commit"}
 	co.runAll("random histories", func(emit func(*Case)) {
 		for i := 0; i < nRandom; i++ {
@@ -217,6 +226,10 @@ func main() {
 	fmt.Fprintf(os.Stderr, "c15: random part done at %.1fs\n", time.Since(t0).Seconds())
 
 	co.report()
+	if !r.Quick() {
+		concurrentPart(r)
+		fmt.Fprintf(os.Stderr, "c15: concurrent part done at %.1fs\n", time.Since(t0).Seconds())
+	}
 
 	// one real clean sample per main family
 	sampleCases(r, mat)
